@@ -228,12 +228,19 @@ pub fn run(tier: &Tier) -> i32 {
     let all16: Vec<u32> = (0..65536).collect();
     let counts: Vec<u32> = (0..256).collect();
     let wl = w16();
+    let wbytes = w16_bytes();
+    let wrel = w16_relations();
+    let mid_counts: Vec<u32> = vec![1, 2, 3, 4, 7, 8, 9, 15, 16, 17, 31, 32];
     // shifts and rotates, canonical register forms, all counts
     for op in ShOp::ALL {
         for by_cl in [false, true] {
             sweep_shift(&rep, &c, op, Opnd::R8(0), by_cl, &all8, &counts);
             let wv: &Vec<u32> = if tier.thorough { &all16 } else { &wl };
             sweep_shift(&rep, &c, op, Opnd::R16(R_AX), by_cl, wv, &counts);
+            if !tier.thorough {
+                // words away from the boundaries (every low byte under a fixed high byte and the reverse)
+                sweep_shift(&rep, &c, op, Opnd::R16(R_AX), by_cl, &wbytes, &mid_counts);
+            }
         }
     }
     // logic, canonical forms
@@ -243,6 +250,9 @@ pub fn run(tier: &Tier) -> i32 {
         let i = Instr::Bin(op, Opnd::R16(R_AX), Opnd::R16(R_BX));
         let wv = if tier.thorough { w16_dense(1024) } else { wl.clone() };
         sweep_values(&rep, &c, &i, &wv, &wv, &i.shape());
+        sweep_values(&rep, &c, &i, &wbytes, &wl, &i.shape());
+        sweep_values(&rep, &c, &i, &wl, &wbytes, &i.shape());
+        sweep_pairs(&rep, &c, &i, &wrel, &i.shape());
     }
     let i = Instr::Un(UnOp::Not, Opnd::R8(0));
     sweep_values(&rep, &c, &i, &all8, &[0], &i.shape());
@@ -280,8 +290,8 @@ pub fn run(tier: &Tier) -> i32 {
     };
     let mut cov = Coverage::default();
     cov.exhaustive = true;
-    cov.rule = "every case = (source instruction, pre-state) executed through Preprocessor+Interpreter, compared in full with the reference (shift/rotate = count single-bit steps). Canonical register forms: all 256 byte values x all 256 counts x carry-in x 2 prior flag words for the 8 shift/rotate spellings, immediate and CL counts (words: boundary lattice in quick, all 65536 values in thorough); logic ops all 2^16 byte pairs; NOT all values; plus every operand form of syntax.md x boundary values x boundary counts. distinct_nontrivial = distinct (instruction, pre-state) pairs Histories: every sequence of up to 3 (thorough 4) instructions over the property's instructions plus a 16-instruction context alphabet (register, memory, stack and flag traffic), with at least one of the property's instructions, as ONE program on ONE machine and ONE Interpreter object from 3 initial states, compared with the reference after every step (whole memory on every 16th run)".into();
-    cov.bounds = json!({"counts": 256, "byte_values": 256, "word_values": if tier.thorough {65536} else {wl.len()}, "shift_forms": sf.len(), "logic_forms": lf.len(), "sequence_depth": seq_depth, "sequences": seq.sequences, "sequence_steps": seq.steps, "sequence_whole_memory_audits": seq.audits, "tier": tier.name()});
+    cov.rule = "every case = (source instruction, pre-state) executed through Preprocessor+Interpreter, compared in full with the reference (shift/rotate = count single-bit steps). Canonical register forms: all 256 byte values x all 256 counts x carry-in x 2 prior flag words for the 8 shift/rotate spellings, immediate and CL counts (words: boundary lattice in quick, all 65536 values in thorough); logic ops all 2^16 byte pairs; NOT all values; plus every operand form of syntax.md x boundary values x boundary counts. distinct_nontrivial = distinct (instruction, pre-state) pairs Word operands also run through 512 values away from the boundaries (every low byte under a fixed high byte and the reverse) against the lattice, both ways round, and through 8 fixed RELATIONS between the two operands (equal, low byte complemented, complemented, successor, bytes swapped, negated, doubled, halved+0x4000) for every 16-bit x. Histories: every sequence of up to 3 (thorough 4) instructions over the property's instructions plus a 16-instruction context alphabet (register, memory, stack and flag traffic), with at least one of the property's instructions, as ONE program on ONE machine and ONE Interpreter object from 3 initial states, compared with the reference after every step (whole memory on every 16th run)".into();
+    cov.bounds = json!({"counts": 256, "byte_values": 256, "word_values": if tier.thorough {65536} else {wl.len()}, "word_byte_structured_values": wbytes.len(), "word_relation_pairs": wrel.len(), "shift_forms": sf.len(), "logic_forms": lf.len(), "sequence_depth": seq_depth, "sequences": seq.sequences, "sequence_steps": seq.steps, "sequence_whole_memory_audits": seq.audits, "tier": tier.name()});
     cov.assumptions = common_assumptions();
     let cov = finish_cov(&c, cov);
     rep.finish(cov)
